@@ -210,8 +210,10 @@ PROPS["C13"] = {
 PROPS["C11"] = {
     "parts": [{"name": "schedules", "pkg": "c11", "chk": "chk_c11", "args": ["wmutex"]},
               {"name": "stress_pattern", "pkg": "c11", "chk": "chk_c11_stress", "args": ["stress_pattern"]},
-              {"name": "stress_service", "pkg": "c11", "chk": "chk_c11_stress", "args": ["stress_service"]}],
-    "reasons": {"stress_pattern": {"1": "free-running stress: a lookup was routed to a target after its watcher's Close had returned, or the name could not be watched again", "2": "free-running stress: a route present in every description of a target that is being re-described was momentarily unroutable (flicker)", "3": "free-running stress: a lookup returned target / service / method / binding that are not parts of one description (mixture)"},
+              {"name": "stress_service", "pkg": "c11", "chk": "chk_c11_stress", "args": ["stress_service"]},
+              {"name": "inflight", "pkg": "c11", "chk": "chk_c11_inflight", "args": ["inflight"]}],
+    "reasons": {"inflight": {"1": "an UpdateDesc was parked at a yield point, Close was called (and returned while the update was still parked or after it), the update ran to its end - and afterwards the removed target was still routable"},
+                "stress_pattern": {"1": "free-running stress: a lookup was routed to a target after its watcher's Close had returned, or the name could not be watched again", "2": "free-running stress: a route present in every description of a target that is being re-described was momentarily unroutable (flicker)", "3": "free-running stress: a lookup returned target / service / method / binding that are not parts of one description (mixture)"},
                 "stress_service": {"1": "free-running stress: a lookup was routed to a target after its watcher's Close had returned, or the name could not be watched again", "2": "free-running stress: a route present in every description of a target that is being re-described was momentarily unroutable (flicker)", "3": "free-running stress: a lookup returned target / service / method / binding that are not parts of one description (mixture)"},
                 "schedules": {"1": "a lookup issued after Close had returned was routed to the removed target (its routes came back through an update that was in flight)",
                               "2": "re-Watch refused after Close returned, or accepted while still watched"}},
